@@ -17,6 +17,13 @@ def gen(seed, tier):
     payloads = bystanders(rng, rng.randint(0, 6), allow_spin=rng.random() < 0.3)
     drivers = []
     nfail = rng.choice([1, 1, 1, 2, 2, 3])
+    # family: several payloads of one flavour failing at the same virtual
+    # instant (the runners' "first failure wins" bookkeeping under contention)
+    simul = rng.random() < 0.12
+    simul_fl = rng.choice(FL)
+    if simul:
+        nfail = rng.choice([2, 2, 3, 4])
+        knobs["strategy"] = {"kind": "random", "p": rng.choice([0.1, 0.2, 0.5])}
     # swarm: restrict the kinds of this run
     kind_pool = []
     for grp, w in ((EXCEPTION_KINDS, 3), (ODD_EXCEPTION_KINDS, 1), (BASE_KINDS + ["KeyboardInterrupt"], 1), (["ret:" + v for v in FALSY_VALUES], 3), (["ret:" + v for v in TRUTHY_VALUES], 1)):
@@ -31,8 +38,13 @@ def gen(seed, tier):
         fl = rng.choice(FL)
         kind = rng.choice(kind_pool)
         t = align if (i > 0 and rng.random() < 0.6) else rng.choice(TIMES)
-        tmax = max(tmax, t)
         via = rng.choice(["queued", "queued", "adopt-driver", "adopt-payload", "service-pre", "service-late-driver", "service-late-payload"])
+        if simul:
+            t = align
+            via = rng.choice(["queued", "queued", "service-pre"])
+            if rng.random() < 0.85:
+                fl = simul_fl
+        tmax = max(tmax, t)
         step = ["return", kind[4:]] if kind.startswith("ret:") else ["raise", kind]
         pid = "f%d" % i
         spec = {"id": pid, "flavour": fl, "steps": [["sleep", t], step] if t > 0 else ([["spin", 1], step] if rng.random() < 0.3 else [step]), "fails": True, "trigger": True}
